@@ -244,6 +244,17 @@ Definition cb_ok (limit : N) (c : cb) : bool :=
      || (bnull && (blen =? size_max) && match body with [] => true | _ => false end))
   end.
 
+(* http.h: "If the response body is larger than maxrlen bytes, the callback is handed a response with
+   bodylen == (size_t)(-1) and body == NULL" - status and headers are those of the response.
+   [oversized r] is that report for the well-formed response r; [expect_limited limit r] is what the
+   callback must receive when the caller's limit is [limit] (C08 oversize clause + C09) *)
+Definition oversized (r : response) : cb :=
+  CbResp (Z.of_N (m_status (p_final r)))
+         (map (fun f => (f_name f, f_value f)) (final_fields r)) true size_max [].
+
+Definition expect_limited (limit : N) (r : response) : cb :=
+  if lenN (resp_body r) <=? limit then expect r else oversized r.
+
 (* ------------------------------------------------------------------ C09: the documented request bytes *)
 Definition request_layout (q : request) : list N :=
   q_method q ++ [SP] ++ q_path q ++ [SP; 72; 84; 84; 80; 47; 49; 46; 49; CR; LF] ++
